@@ -72,29 +72,10 @@ def witnesses(ctx):
             'trusted_base': ['rustc trait solver and type checker', 'std auto-trait impls (Send/Sync)'], 'witness_wall_s': round(time.time() - t0, 1)}
 
 
-def run(ctx):
-    fx = ctx.fx
-    ctx.rules = ['S1 Send + Sync (rustc witnesses)', 'S2 no interior mutability (type walk)', 'S3 no hidden state (statics, thread-locals, unsafe)',
-                 'S4 accessors cannot mutate', 'S5 no ambient inputs / hash-order dependence', 'S6 no wrap-dependent arithmetic or truncation']
-    ctx.assumptions += ['Rust aliasing rules: a value without interior mutability cannot change behind a shared reference',
-                        'floating-point determinism across targets is not decided',
-                        'collection sizes that are only bounded by the input size (palette entries, tilesets, slices) fit u32']
-    ctx.explanation = (
-        'Clause 1 is proof-level: a witness crate applies fn req<T: Send + Sync>() to AsepriteFile and every exported value/handle type; '
-        'rustc\'s trait solver discharges the obligations, and compile_fail twins (Rc wrapper, &mut return) show the witnesses can fail. '
-        'Clauses 2-6 are static rules over the MIR/ADT facts of /repo: the transitive field-type closure of every exported type contains '
-        'no UnsafeCell/Cell/RefCell/Once*/Mutex/RwLock/Atomic*/Rc/raw pointer/dyn; the crate has no static mut, no thread_local, no '
-        'unsafe block/fn/impl, and its only static is immutable; every exported method other than the two loaders takes self by shared '
-        'reference or value and none returns &mut; the loader and accessor cones call nothing from std::time/env/thread/process/fs '
-        '(except File::open in read_file)/rand, and every hash-map iteration is on a reviewed list; every arithmetic site that can trap in '
-        'debug and wrap in release (overflow asserts of the C04/C05 inventories) is discharged, and every truncating `as` cast outside '
-        'blend.rs has its operand proven in range (interval, guard or named invariant). Not decided: blend.rs channel casts (C17), float '
-        'determinism across targets, behaviour under actual concurrent calls (follows from clauses 1-4 by Rust\'s aliasing rules).')
-    proof = witnesses(ctx)
 
+def static_state_rules(ctx, fx, scope):
+    """clauses 2-5 on an arbitrary fact set (also used by the positive controls on the fixture crate)"""
     # ---------- S2 type walk
-    exported = [a for a in fx.j['adts'] if a.get('exported')]
-    ctx.floor('exported types walked', len(exported), 20)
     for a in fx.j['adts']:
         cl = a['closure']
         bad = [x for x in cl['adts'] if x.startswith(BAD_ADTS)]
@@ -106,7 +87,6 @@ def run(ctx):
                  'no interior mutability, Rc, raw pointer or dyn' if ok else 'contains %s %s' % (bad, flags)), a['span'], key=a['path'] + '|S2')
 
     # ---------- S3 statics / unsafe
-    ctx.floor('statics examined', len(fx.statics), 1)
     for s_ in fx.statics:
         cl = s_['closure']
         bad = [x for x in cl['adts'] if x.startswith(BAD_ADTS)] + [f for f in cl['flags'] if f.startswith(('raw-ptr:', 'dyn:'))]
@@ -146,12 +126,9 @@ def run(ctx):
         ok = not mut_in and ('&mut ' not in out or self_owned)
         ctx.inst('S4', b.name, ok, '%s(%s) -> %s: %s' % (b.name.split('asefile::')[-1], ', '.join(ins)[:80], out[:50],
                  'shared/by-value receiver, no &mut in or out' if ok else 'takes or returns &mut'), b.span, key=b.name + '|S4', nontrivial=bool(ins))
-    ctx.floor('exported pub fns', npub, 80)
+    ctx.extra['exported_pub_fns'] = npub
 
     # ---------- S5 ambient inputs and hash iteration
-    load = CG.load_cone(fx)
-    _, use = _c05.use_cone(fx)
-    scope = [fx.by_path[p] for p in sorted(load | use) if fx.by_path[p].kind != 'promoted']
     amb = 0
     hit = 0
     for b in scope:
@@ -180,7 +157,37 @@ def run(ctx):
                          kind_ or 'NOT on the reviewed list: RandomState order may leak into results'), c.span, key=ctx.key(b.name, 'S5', 'hash-iter', nm))
     ctx.extra['ambient_calls'] = amb
     ctx.extra['hash_iterations'] = hit
-    ctx.floor('hash-map iterations classified', hit, 2)
+
+
+
+def run(ctx):
+    fx = ctx.fx
+    ctx.rules = ['S1 Send + Sync (rustc witnesses)', 'S2 no interior mutability (type walk)', 'S3 no hidden state (statics, thread-locals, unsafe)',
+                 'S4 accessors cannot mutate', 'S5 no ambient inputs / hash-order dependence', 'S6 no wrap-dependent arithmetic or truncation']
+    ctx.assumptions += ['Rust aliasing rules: a value without interior mutability cannot change behind a shared reference',
+                        'floating-point determinism across targets is not decided',
+                        'collection sizes that are only bounded by the input size (palette entries, tilesets, slices) fit u32']
+    ctx.explanation = (
+        'Clause 1 is proof-level: a witness crate applies fn req<T: Send + Sync>() to AsepriteFile and every exported value/handle type; '
+        'rustc\'s trait solver discharges the obligations, and compile_fail twins (Rc wrapper, &mut return) show the witnesses can fail. '
+        'Clauses 2-6 are static rules over the MIR/ADT facts of /repo: the transitive field-type closure of every exported type contains '
+        'no UnsafeCell/Cell/RefCell/Once*/Mutex/RwLock/Atomic*/Rc/raw pointer/dyn; the crate has no static mut, no thread_local, no '
+        'unsafe block/fn/impl, and its only static is immutable; every exported method other than the two loaders takes self by shared '
+        'reference or value and none returns &mut; the loader and accessor cones call nothing from std::time/env/thread/process/fs '
+        '(except File::open in read_file)/rand, and every hash-map iteration is on a reviewed list; every arithmetic site that can trap in '
+        'debug and wrap in release (overflow asserts of the C04/C05 inventories) is discharged, and every truncating `as` cast outside '
+        'blend.rs has its operand proven in range (interval, guard or named invariant). Not decided: blend.rs channel casts (C17), float '
+        'determinism across targets, behaviour under actual concurrent calls (follows from clauses 1-4 by Rust\'s aliasing rules).')
+    proof = witnesses(ctx)
+
+    load = CG.load_cone(fx)
+    _, use = _c05.use_cone(fx)
+    scope = [fx.by_path[p] for p in sorted(load | use) if fx.by_path[p].kind != 'promoted']
+    static_state_rules(ctx, fx, scope)
+    ctx.floor('exported types walked', len([a_ for a_ in fx.j['adts'] if a_.get('exported')]), 20)
+    ctx.floor('statics examined', len(fx.statics), 1)
+    ctx.floor('exported pub fns', ctx.extra.get('exported_pub_fns', 0), 80)
+    ctx.floor('hash-map iterations classified', ctx.extra.get('hash_iterations', 0), 2)
 
     # ---------- S6a overflow sites (union of the C04 and C05 inventories)
     I = invariants.Inv(ctx)
